@@ -298,6 +298,40 @@ def leaves_of(snap):
     return sorted([ino, v[0], v[1]] for p, (v, ino) in snap.items() if v is not None)
 
 
+def remaining_plan(case, obs):
+    """what a run that ended early had not got to yet: the designated entries of the initial tree that come after the
+    considered ones in the sort order, each with its planned path.  The model is given the WHOLE list: if the
+    implementation stops where the model goes on, the two differ (an abort is an observation too).  [] when the order
+    cannot be reconstructed (unsorted runs, ties in the sort key, links to directories, directory mode)."""
+    if not case["sorted"] or has_dir_link(case) or case["mode"] == "directory" or obs["rc"] == 0:
+        return []
+    before_kinds = {p: v[0] is None for p, v in obs["before"].items()}
+    keyed = []
+    for d, rel in spec_gathered(case, before_kinds):
+        d = os.path.normpath(d)
+        key = d + "|" + rel
+        if key not in case["order"]:
+            return []
+        g = case["plan"].get(key)
+        if g is None:
+            gen = rel
+        elif case["mode"] == "name":
+            gen = os.path.join(os.path.dirname(rel), g) if "/" not in g and g not in ("", ".", "..") else None
+        else:
+            gen = g
+        if gen is None:
+            return []
+        keyed.append((case["order"][key], [d, rel, ["P", gen]]))
+    if len({k for k, _ in keyed}) != len(keyed):
+        return []
+    keyed.sort(key=lambda t: t[0], reverse=bool(case["invert"]))
+    full = [e for _, e in keyed]
+    seen = [[os.path.normpath(d), rel] for d, rel, _ in obs["gens"]]
+    if [[d, rel] for d, rel, _ in full[:len(seen)]] != seen:
+        return []
+    return full[len(seen):]
+
+
 def model_request(case, obs, dry_override=None):
     dry = case["dry"] if dry_override is None else dry_override
     ids = {}
@@ -312,9 +346,10 @@ def model_request(case, obs, dry_override=None):
         else:
             kind, content = "f", contents.setdefault(v[1], len(contents) + 1)
         entries.append(f"{enc_str(p)}:{i}:{kind}:{content}")
-    files = [f"{enc_str(d)}:{enc_str(rel)}" for d, rel, _ in obs["gens"]]
+    all_gens = list(obs["gens"]) + remaining_plan(case, obs)
+    files = [f"{enc_str(d)}:{enc_str(rel)}" for d, rel, _ in all_gens]
     gens = []
-    for _, _, g in obs["gens"]:
+    for _, _, g in all_gens:
         gens.append("P" + enc_str(g[1]) if g[0] == "P" else g[0])
     answers = []
     for a in case["answers"]:
